@@ -244,6 +244,18 @@ impl Summary {
         }
     }
     pub fn write(&self, out: &Path, cases: &Cases) {
+        // disagreements between NetworkFilter::matches and the reading of the rule text, collected by
+        // net::rule_matches during the run
+        let mut oracle_failures = self.oracle_failures.clone();
+        let mut extra = self.extra.clone();
+        let mism = net::TEXT_MISMATCHES.with(|m| m.borrow().clone());
+        for (what, replay) in mism {
+            oracle_failures.push(json!({"what": what, "replay": replay, "class": null}));
+        }
+        let (judged, outside) = net::TEXT_JUDGED.with(|c| c.get());
+        if judged + outside > 0 {
+            extra.insert("rule_request_pairs_also_judged_by_text".into(), json!({"judged": judged, "outside_the_reading": outside}));
+        }
         let v = json!({
             "evaluations": cases.n as u64 + self.oracle_evaluations,
             "correspondence_cases": cases.n,
@@ -253,9 +265,9 @@ impl Summary {
             "rule": self.rule,
             "samples": cases.samples,
             "generator_stats": cases.stats,
-            "oracle_failures": self.oracle_failures,
+            "oracle_failures": oracle_failures,
             "known_hits": self.known_hits,
-            "extra": self.extra,
+            "extra": extra,
         });
         std::fs::write(out.join("impl.json"), serde_json::to_string_pretty(&v).unwrap()).unwrap();
     }
@@ -292,6 +304,7 @@ pub fn catch<T, F: FnOnce() -> T + std::panic::UnwindSafe>(f: F) -> Result<T, St
 pub mod gen;
 pub mod net;
 pub mod refmatch;
+pub mod refrule;
 pub mod res;
 
 /// The value of option `names[..]` of a network rule line AS WRITTEN: the text between the first
